@@ -516,7 +516,8 @@ class VLE(Equilibrium, phases='lg'):
         mixture = self._thermo.mixture
         phase_data = self._phase_data
         
-        # Set Pressure in equilibrium
+        # Set temperature and pressure in equilibrium
+        self._T = self._thermal_condition.T = T
         self._thermal_condition.P = P = self._chemical.Psat(T)
         
         # Check if super heated vapor
@@ -584,7 +585,8 @@ class VLE(Equilibrium, phases='lg'):
         mixture = self._thermo.mixture
         phase_data = self._phase_data
         
-        # Set Pressure in equilibrium
+        # Set temperature and pressure in equilibrium
+        self._T = self._thermal_condition.T = T
         self._thermal_condition.P = P = self._chemical.Psat(T)
         
         # Check if super heated vapor
